@@ -111,11 +111,23 @@ pair_field!(c07_pair_5, 5);
 // positions 6,7
 pair_field!(c07_pair_6, 6);
 
+/// a light pre-existing row without a callsign (replacing an existing String by one with symbolic
+/// content, or merging the Strings of the two update paths, exhausts memory; that a carried callsign
+/// REPLACES the old one and touches nothing else is decided with the marker stub in c19_neutral_tc4)
+fn ident_row(icao: u32) -> Plane {
+    let mut p = Plane::new();
+    p.icao = icao;
+    p.category = (any_below(32), any_below(8));
+    p.capability.0 = any_below(8);
+    p.altitude = if any_bool() { Some(any_below(100000)) } else { None };
+    p
+}
+
 macro_rules! row_ident {
-    ($name:ident, $tc:expr, $p:expr) => {
-        row_ident!($name, $tc, $p, pair_codes);
+    ($name:ident, $tc:expr, $p:expr, $upd:expr) => {
+        row_ident!($name, $tc, $p, $upd, pair_codes);
     };
-    ($name:ident, $tc:expr, $p:expr, $codes:ident) => {
+    ($name:ident, $tc:expr, $p:expr, $upd:expr, $codes:ident) => {
         #[cfg_attr(kani, kani::proof)]
         #[cfg_attr(kani, kani::unwind(30))]
         #[cfg_attr(kani, kani::stub(chrono::Utc::now, crate::verif::rt::stub_now))]
@@ -128,45 +140,33 @@ macro_rules! row_ident {
             let m = id_frame(codes);
             pin_df(&m, 17);
             pin_tc(&m, $tc);
-            let use_update = any_bool();
             let relaxed = any_bool();
-            let mut p = any_row();
-            // the row holds no callsign yet: replacing an existing String with a symbolic-content one
-            // (drop / clone_from with symbolic lengths) exhausts memory; that a carried callsign REPLACES
-            // the old one is decided with the marker stub in c19_neutral_tc4 / c11 lemmas
-            p.ais = None;
             let Some((df, icao)) = accepted(&m) else { return };
-            p.icao = icao;
-            let before = clone_row(&p);
-            apply(&mut p, &m, df, use_update, relaxed);
+            let mut p = ident_row(icao);
+            let alt = p.altitude;
+            apply(&mut p, &m, df, $upd, relaxed);
             let ca = bits(&m, 38, 40) as u32;
-            vcover!(use_update && ca == 7, "-U, category 7");
-            vcover!(!use_update && ca == 0, "default path, category 0");
-            vcover!(!use_update && ais_char(codes[$p]) == 0 && ais_char(codes[$p + 1]) == 0, "default path, both symbolic characters omitted");
+            vcover!(ca == 7, "category 7");
+            vcover!(ais_char(codes[$p]) == 0 && ais_char(codes[$p + 1]) == 0, "both symbolic characters omitted");
             vassert!(matches_oracle(&p.ais, &m), "C07: row callsign is not the eight characters of the identification squitter just applied");
             vassert!(p.category == ($tc, ca), "C07: emitter category is not (type code, 3-bit category) of the identification squitter");
-            assert_unchanged_except(&before, &p, F_AIS | F_CATEGORY | F_BOOK | F_CAP0);
+            vassert!(p.altitude == alt && p.icao == icao, "C07: an identification squitter changed altitude / address");
         }
     };
 }
-// @harness name=c07_row_tc4_p1 props=C07,C11 tier=quick cap=900
-// row step: DF17 TC4, characters 1,2 symbolic, CA symbolic, arbitrary row, -U/-R symbolic
-row_ident!(c07_row_tc4_p1, 4, 1);
-// @harness name=c07_row_tc4_blank props=C07,C11 tier=quick cap=900
-// row step: DF17 TC4 whose other six characters are all omitted codes (so the callsign may be EMPTY), characters 3,4 symbolic
-row_ident!(c07_row_tc4_blank, 4, 3, pair_codes_blank);
-// @harness name=c07_row_tc2_blank props=C07,C11 tier=thorough cap=900
-// row step: DF17 TC2, blank background, characters 0,1 symbolic
-row_ident!(c07_row_tc2_blank, 2, 0, pair_codes_blank);
-// @harness name=c07_row_tc1_p4 props=C07,C11 tier=thorough cap=900
-// row step: TC1, characters 4,5
-row_ident!(c07_row_tc1_p4, 1, 4);
-// @harness name=c07_row_tc2_p6 props=C07,C11 tier=thorough cap=900
-// row step: TC2, characters 6,7
-row_ident!(c07_row_tc2_p6, 2, 6);
-// @harness name=c07_row_tc3_p0 props=C07,C11 tier=thorough cap=900
-// row step: TC3, characters 0,1
-row_ident!(c07_row_tc3_p0, 3, 0);
+// NOTE: the same step through the DEFAULT path (Ext built by DF::from_message, then clone_from into the
+// row) exhausts 24 GB as soon as the row is not `Plane::new()`. The default path's content is therefore
+// decided on the creating frame (c07_create_*: `Plane::from_downlink` = fresh row + the very same
+// `update_from_downlink`), and "a later frame behaves like -U" with the marker stub (c19_neutral_tc4).
+// @harness name=c07_row_tc4_p5_update props=C07,C11 tier=quick cap=1500
+// row step, -U path: DF17 TC4, characters 5,6 symbolic
+row_ident!(c07_row_tc4_p5_update, 4, 5, true);
+// @harness name=c07_row_tc2_blank_update props=C07,C11 tier=thorough cap=900
+// row step, -U path: TC2, blank background, characters 0,1 symbolic
+row_ident!(c07_row_tc2_blank_update, 2, 0, true, pair_codes_blank);
+// @harness name=c07_row_tc2_p6_update props=C07,C11 tier=thorough cap=900
+// row step, -U path: TC2, characters 6,7
+row_ident!(c07_row_tc2_p6_update, 2, 6, true);
 
 // @harness props=C07 tier=quick cap=900
 // the identification squitter that creates a row (TC4, characters 2,3 symbolic)
@@ -186,6 +186,29 @@ fn c07_create_tc4() {
     let p = create(&m, df, icao);
     vcover!(bits(&m, 38, 40) == 5, "category 5");
     vassert!(matches_oracle(&p.ais, &m), "C07: created row's callsign is not the eight characters of the squitter");
+    vassert!(p.category == (4, bits(&m, 38, 40) as u32), "C07: created row's emitter category wrong");
+}
+
+// @harness props=C07,C11 tier=quick cap=1500
+// the identification squitter that creates a row, all other characters omitted codes (the callsign may be
+// EMPTY): default path; callsign = oracle (possibly ""), category recorded
+#[cfg_attr(kani, kani::proof)]
+#[cfg_attr(kani, kani::unwind(30))]
+#[cfg_attr(kani, kani::stub(chrono::Utc::now, crate::verif::rt::stub_now))]
+#[cfg_attr(kani, kani::stub(crate::decoder::get_downlink_format, super::rows::stub_get_df))]
+#[cfg_attr(kani, kani::stub(crate::decoder::adsb::icao::get_icao, super::rows::stub_get_icao))]
+#[cfg_attr(kani, kani::stub(crate::decoder::utils::get_message_type, super::rows::stub_get_tc))]
+#[cfg_attr(verif_replay, test)]
+fn c07_create_tc4_blank() {
+    let codes = pair_codes_blank(4);
+    let m = id_frame(codes);
+    pin_df(&m, 17);
+    pin_tc(&m, 4);
+    let Some((df, icao)) = accepted(&m) else { return };
+    let p = create(&m, df, icao);
+    vcover!(ais_char(codes[4]) == 0 && ais_char(codes[5]) == 0, "all eight characters omitted");
+    vcover!(ais_char(codes[4]) != 0, "one printable character");
+    vassert!(matches_oracle(&p.ais, &m), "C07: created row's callsign is not the eight characters of the squitter (empty when all are omitted)");
     vassert!(p.category == (4, bits(&m, 38, 40) as u32), "C07: created row's emitter category wrong");
 }
 
